@@ -9,6 +9,7 @@ set -e
 if [ "$1" = "--remove" ]; then
   n=$2; d=/tmp/mt-$n
   git -C /repo worktree remove --force $d/repo 2>/dev/null || true
+  [ -L $d/target ] && rm -f $d/target
   rm -rf $d
   git -C /repo worktree prune
   exit 0
@@ -25,8 +26,10 @@ mkdir -p $d/harness
 rsync -a --exclude target /verif/harness/ $d/harness/
 find $d/harness -name Cargo.toml -print0 | xargs -0 sed -i "s#/repo/#$d/repo/#g"
 sed -i "s#/verif/.target/h#$d/target#" $d/harness/.cargo/config.toml
-if [ ! -d $d/target ] && [ -n "${2:-}" ] && [ -d "$2" ]; then
-  cp -a "$2" $d/target
+if [ ! -e $d/target ] && [ -n "${2:-}" ] && [ -d "$2" ]; then
+  # share the agent's own target dir (no copy: disk is tight); the scratch
+  # worktree's crates have other paths, so they coexist with the /repo builds
+  ln -s "$2" $d/target
 fi
 cat > $d/run <<EOS
 #!/bin/bash
